@@ -8,13 +8,14 @@
 # Not registered in MANIFEST (dev aid; needs a scratch worktree).
 #   logs     a guarded debug statement in front of every statement of every function (adds zz_verifdbg.go files: run `git clean -fdq` in the worktree afterwards)
 #   defers   `defer func() {}()` at the top of every declared function (expected: C30 only-schedules reports, see DESIGN 12.6)
-# usage: selftest/rename_test.sh <scratch-worktree> [locals|swapif|swapcmp|logs|defers]
+#   reorder  the function declarations of every file in reverse order
+# usage: selftest/rename_test.sh <scratch-worktree> [locals|swapif|swapcmp|logs|defers|reorder]
 set -u
 WT=${1:?scratch worktree}; MODE=${2:-locals}
 export PATH=/opt/veriftools/go1.26.8/bin:$PATH GOTOOLCHAIN=local GOPROXY=off GOSUMDB=off GOWORK=off
 (cd /verif/checker && GOFLAGS=-mod=vendor go build -o /tmp/renameparams ./cmd/renameparams) || exit 2
 git -C "$WT" checkout -q -- . && git -C "$WT" clean -fdq || exit 2
-case $MODE in locals) export LOCALS=1;; swapif) export SWAPIF=1;; swapcmp) export SWAPCMP=1;; logs) export LOGS=1;; defers) export DEFERS=1;; esac
+case $MODE in locals) export LOCALS=1;; swapif) export SWAPIF=1;; swapcmp) export SWAPCMP=1;; logs) export LOGS=1;; defers) export DEFERS=1;; reorder) export REORDER=1;; esac
 (cd "$WT" && GOFLAGS=-mod=mod /tmp/renameparams "$WT" ./... && GOFLAGS=-mod=mod go build ./...) || exit 2
 bad=0
 for i in $(seq -w 1 58); do
